@@ -85,10 +85,10 @@ type c06Round struct {
 
 func c06Plan(i int64, tier string, seed uint64) c06Round {
 	r := prng.New(seed, 0xC06, uint64(i))
-	cfgs := []string{"A", "B", "E"}
+	cfgs := []string{"A", "B", "E", "F"}
 	gs := []int{8}
 	if tier == "thorough" {
-		cfgs = []string{"A", "B", "C", "D", "E"}
+		cfgs = []string{"A", "B", "C", "D", "E", "F"}
 		gs = []int{2, 4, 8, 16, 32}
 	}
 	rd := c06Round{cfg: cfgs[i%int64(len(cfgs))], G: gs[(i/int64(len(cfgs)))%int64(len(gs))], delay: int(i/3) % 3}
@@ -116,7 +116,7 @@ func init() {
 	fw.Register(&fw.Prop{
 		ID: "C06", Title: "Concurrent evaluations are isolated and race-free", Race: true, Workers: 4, GoMaxProcs: 8,
 		Rule: "each case is one round: G goroutines (quick: 8; thorough: 2,4,8,16,32) each evaluate 6 programs (context-defaulting built-ins under paths, nested contexts, partials, chains, lambdas, higher-order functions, sorts, groupings, transforms, regexes, and generated deterministic programs) some hundred times on goroutine-specific inputs whose correct results differ. " +
-			"Configurations: A one shared Expr per program; B one Expr per goroutine; C Compile inside the loop; D all goroutines share one input document and one registered variable; E package-level RegisterVars/RegisterExts with unique values concurrent with Compile, the compiled Expr then evaluated for $name. " +
+			"Configurations: A one shared Expr per program; B one Expr per goroutine; C Compile inside the loop; D all goroutines share one input document and one registered variable; E package-level RegisterVars/RegisterExts with unique values concurrent with Compile, the compiled Expr then evaluated for $name; F function values (typed and untyped lambdas, partials, a composition, a regex, a transform) returned by one evaluation and registered under a different name in each goroutine's expressions, all goroutines calling the same function objects (outcomes compared including error texts, which carry the calling name). " +
 			"Delay injection at the verif yield points (after the call context is set, on entry to a Go callable): none / 5% / 50% Gosched or 1..40 us spin. Monitors: (1) Go race detector reports with a repository frame; (2) every goroutine's outcome equals the outcome of the same (program, input) evaluated alone before the goroutines start; " +
 			"(3) the recorded Register/Compile history is checked for linearizability per name with porcupine (register model), plus the snapshot invariant that two names registered in one call are always seen together. non-trivial = every round; distinct by round parameters",
 		Assumptions: []string{"Expr-level Register* is not run concurrently with Eval of the same Expr (not promised by the property)", "a porcupine timeout (60 s) is inconclusive, not a violation"},
@@ -144,6 +144,10 @@ func c06Run(i int64, tier string, seed uint64, r *fw.Rec) {
 	c06InstallYield(seed+uint64(i), rd.delay)
 	if rd.cfg == "E" {
 		c06Registry(i, rd, r)
+		return
+	}
+	if rd.cfg == "F" {
+		c06SharedFunctions(i, rd, r)
 		return
 	}
 	iters := 120
@@ -255,6 +259,89 @@ func c06Run(i int64, tier string, seed uint64, r *fw.Rec) {
 	}
 	r.Held()
 	r.Sample("round:"+rd.cfg, map[string]any{"cfg": rd.cfg, "goroutines": rd.G, "delay_level": rd.delay, "programs": rd.progs, "evaluations": evals, "overlapping": overlapped})
+}
+
+// ---- configuration F: function values shared between expressions
+//
+// Function values returned by one evaluation are registered (RegisterVars)
+// under a different name in each goroutine's own expressions; all goroutines
+// call the same function objects at the same time.
+var c06FnSources = []string{`function($x)<n:n>{$x * 2}`, `function($x){$x & "!"}`, `$substringBefore(?, "-")`, `($string ~> $uppercase)`, `/[a-z]+/`, `|b|{"t":1}|`, `$pad(?, 10)`}
+
+func c06SharedFunctions(i int64, rd c06Round, r *fw.Rec) {
+	vals := make([]interface{}, len(c06FnSources))
+	for k, src := range c06FnSources {
+		v, err := jsonata.MustCompile(src).Eval(nil)
+		if err != nil {
+			r.Inconclusive("function source " + src + " did not evaluate: " + err.Error())
+			return
+		}
+		vals[k] = v
+	}
+	type call struct {
+		e    *jsonata.Expr
+		want string
+	}
+	full := func(o obs.Outcome) string {
+		d := digest(o, false, false)
+		if o.Err != nil {
+			d += " | " + o.Err.Error() // error texts carry the name the function was called by
+		}
+		return d
+	}
+	calls := make([][]call, rd.G)
+	inputs := make([]interface{}, rd.G)
+	for g := 0; g < rd.G; g++ {
+		inputs[g] = c06Input(g)
+		for k := range vals {
+			name := fmt.Sprintf("fn%d_%d", g, k)
+			for _, arg := range []string{"a", "n", "$"} {
+				e := jsonata.MustCompile("$" + name + "(" + arg + ")")
+				if err := e.RegisterVars(map[string]interface{}{name: vals[k]}); err != nil {
+					r.Inconclusive("RegisterVars failed: " + err.Error())
+					return
+				}
+				calls[g] = append(calls[g], call{e, full(obs.Eval(e, inputs[g]))})
+			}
+		}
+	}
+	var wg sync.WaitGroup
+	var mism, evals int64
+	var mu sync.Mutex
+	firstMsg := ""
+	start := make(chan struct{})
+	for g := 0; g < rd.G; g++ {
+		wg.Add(1)
+		go func(g int) {
+			defer wg.Done()
+			<-start
+			for it := 0; it < 60; it++ {
+				for _, c := range calls[g] {
+					got := full(obs.Eval(c.e, inputs[g]))
+					atomic.AddInt64(&evals, 1)
+					if got != c.want {
+						atomic.AddInt64(&mism, 1)
+						mu.Lock()
+						if firstMsg == "" {
+							firstMsg = fmt.Sprintf("goroutine %d: %s gave %q, alone it gives %q", g, c.e.String(), clipS(got), clipS(c.want))
+						}
+						mu.Unlock()
+					}
+				}
+			}
+		}(g)
+	}
+	close(start)
+	wg.Wait()
+	r.Evals(int(evals))
+	r.Count("concurrent_evaluations", evals)
+	r.Outcome("round")
+	if mism > 0 {
+		r.Violation("cross-talk:shared-function-value", fmt.Sprintf("%d of %d concurrent calls of shared function values differed from the sequential baseline; first: %s", mism, evals, firstMsg), nil)
+		return
+	}
+	r.Held()
+	r.Sample("round:F", map[string]any{"cfg": "F", "goroutines": rd.G, "functions": c06FnSources, "evaluations": evals})
 }
 
 // ---- configuration E: registry visibility under concurrency
